@@ -127,6 +127,8 @@ fn fresh_context<W: World>(kind: &str, seed: u64, lanes: u64, from: u64, to: u64
         .arg(from.to_string())
         .arg("--to")
         .arg(to.to_string())
+        .arg("--depth")
+        .arg(crate::sim::depth().to_string())
         .arg("--machine")
         .output()
         .map_err(|e| format!("cannot spawn context-replay: {}", e))?;
@@ -348,7 +350,7 @@ pub fn run_property<W: World>(cfg: &RunCfg) -> Report {
             v_detail = format!("fails only after other histories have run in the same process (process-wide state in the crate): {} histories of context, then the listed one", to - lo);
             min_len = case.ops.len();
             file.set("mode", J::str("context"));
-            file.set("context", J::obj().with("kind", J::str(kind)).with("lanes", J::u(batch.lanes)).with("from", J::u(lo)).with("to", J::u(to)).with("meaning", J::str("seeded: the runs of the lane of `to` with index in from..=to, in lane order; directed: scenarios from..=to; all in one fresh process, the last one must fail")));
+            file.set("context", J::obj().with("kind", J::str(kind)).with("lanes", J::u(batch.lanes)).with("from", J::u(lo)).with("to", J::u(to)).with("depth", J::u(crate::sim::depth() as u64)).with("meaning", J::str("seeded: the runs of the lane of `to` with index in from..=to, in lane order; directed: scenarios from..=to; all in one fresh process, the last one must fail")));
             file.set("ops", ops_json::<W>(&case.ops));
         }
         file.set("expected", J::obj().with("class", J::str(&v_class)).with("step", J::u(v_step as u64)).with("digest", J::hex64(v_digest)).with("detail", J::str(&v_detail)));
